@@ -272,6 +272,11 @@ def _key_provenance(k):
     m = re.fullmatch(r"hashlib\.\w+\(user_prompt\.encode\([^()]*\)\)\.(hexdigest|digest)\(\)(\[\d*:\d*\])?", s)
     if m:
         return None
+    # the whole prompt embedded once, unmodified, in a text that otherwise consists of literals and configuration (the
+    # gate logic, a namespace prefix …): different prompts still give different texts
+    m = re.fullmatch(r"hashlib\.\w+\(f⟨(?P<pre>[^⟩]*?)\{user_prompt\}(?P<post>[^⟩]*)⟩\.encode\([^()]*\)\)\.(hexdigest|digest)\(\)(\[\d*:\d*\])?", s, re.DOTALL)
+    if m and "user_prompt" not in m.group("pre") + m.group("post") and not any(w in m.group("pre") + m.group("post") for w in ("payload_", "confidence_", "clock", "failure_", "cache_")):
+        return None
     if "user_prompt" not in s:
         return "does not derive from the prompt"
     return "is not a digest of the prompt itself: the prompt is transformed first, so different requests can share one entry / one token"
